@@ -106,6 +106,13 @@ func (P *Prog) verifyFunc(key string, sweepOnly bool) (res *FuncResult) {
 		x.obls = append(x.obls, o)
 	}
 	x.run(st, fr, fn.Blocks[0], 0)
+	if con != nil {
+		for _, ck := range con.Checks {
+			if x.checkEval[ck] == 0 {
+				bail("check clause %q could not be evaluated at any return (unknown local?)", ck.Label)
+			}
+		}
+	}
 	res.Obls = x.obls
 	res.Paths = x.paths
 	res.Notes = x.notes
@@ -167,7 +174,14 @@ func (x *Exec) atExit(st *State, fr *Frame, rets []Val, pos token.Pos) {
 		lenv := *env
 		lenv.fr = fr
 		lenv.localsFirst = true // a named result variable means the variable, resultN the returned value
-		g := x.evalSpec(en.E, &lenv)
+		g, ok := x.evalCheck(en.E, &lenv)
+		if !ok {
+			continue // a local of the clause is not yet bound at this return (an early exit)
+		}
+		if x.checkEval == nil {
+			x.checkEval = map[*Clause]int{}
+		}
+		x.checkEval[en]++
 		lbl := en.Label
 		if lbl == "" {
 			lbl = fmt.Sprintf("check%d", i)
@@ -315,4 +329,18 @@ func lessKeyField(f *ssa.Function) (int, bool) {
 		return 0, false
 	}
 	return fi, true
+}
+
+// evalCheck evaluates an exit assertion; ok=false when it mentions a local that is not bound on this path.
+func (x *Exec) evalCheck(e *Expr, env *Env) (v Val, ok bool) {
+	defer func() {
+		if r := recover(); r != nil {
+			if b, isB := r.(bailout); isB && strings.Contains(b.msg, "unknown identifier") {
+				ok = false
+				return
+			}
+			panic(r)
+		}
+	}()
+	return x.evalSpec(e, env), true
 }
